@@ -341,6 +341,31 @@ def run(R, tier):
                             {'signature': sig4, 'options': 'graded=True', 'op': label, 'B': [a_, b_]},
                             f'{label} for the non-simple bivector B = {a_} e12 + {b_} e34 (stored as a whole grade) in Algebra(signature={sig4}): graded mode gives {outs_[True, label]}, '
                             f'default mode {outs_[False, label]}')
+    # ---- graded sandwich by an even element that is not a versor, 5-D (the result has more grades than the subject) ----
+    for it in range(1 if tier == 'quick' else 8):
+        sig5 = [1, 1, 1, 1, rng.choice((1, -1))]
+        xv = [float(rng.randint(1, 4)) for _ in range(4)]
+        yv = [float(rng.randint(1, 5)) for _ in range(5)]
+        outs_ = {}
+        for graded in (False, True):
+            A_ = algs.make_impl({'sig': sig5, 'graded': graded})
+            if graded:
+                ek = list(A_.indices_for_grades[(0, 2, 4)])
+                X_ = A_.multivector(keys=tuple(ek), values=[dict(zip((0, 3, 12, 15), xv)).get(k_, 0.0) for k_ in ek])
+            else:
+                X_ = A_.multivector(keys=(0, 3, 12, 15), values=list(xv))
+            Y_ = A_.multivector(keys=tuple(A_.indices_for_grades[(1,)]), values=list(yv))
+            try:
+                r_ = X_ >> Y_
+                outs_[graded] = {int(k_): round(float(v_), 9) for k_, v_ in zip(r_.keys(), r_.values()) if abs(v_) > 1e-12}
+            except Exception as e:  # noqa
+                outs_[graded] = f'{type(e).__name__}: {e}'[:100]
+        R.count('options-graded-sandwich-5d'); R.case(('opt-sw5', tuple(sig5), tuple(xv), tuple(yv)), True)
+        if outs_[True] != outs_[False]:
+            R.violation({'clause': 'differs-under-options', 'graded': True, 'null_generator': False, 'sandwich5': True},
+                        {'signature': sig5, 'options': 'graded=True', 'x': xv, 'y': yv},
+                        f'x >> y for x = {dict(zip(("e", "e12", "e34", "e1234"), xv))} (even, not a versor) and the vector y = {yv} in Algebra(signature={sig5}): '
+                        f'graded mode gives {outs_[True]}, default mode {outs_[False]}')
     # ---- graded mode against Model/Graded.v (completion of grades), evaluated in Coq ----
     pool = algs.AlgPool()
     cases = []
